@@ -282,3 +282,26 @@ def c10_6(ctx):
             continue
         if not isinstance(r.value, (ast.List, ast.Tuple)) or len(r.value.elts) != 2:
             ctx.fail(fn, r, 'date_range returns %s, not a pair of endpoints' % U(r.value))
+
+
+@obligation('C10.7', 'TABLES (closed set of exits)', 'period-bump branch of _drange:drange',
+            'a tenor is enumerated either by rrule (one forward calendar unit) or by applying dt_bump to the running date again and again - month/business-day parts make the step depend on the date, so no exit may enumerate with a step measured once (t0 + k * (dt_bump(t0, bump) - t0))',
+            axioms=('A1',))
+def c10_7(ctx):
+    fn = ctx.repo.fn('_drange:drange')
+    br = [s for s in fn.body if isinstance(s, ast.If) for t, b in if_chain(s) if t is not None and 'is_period' in U(t) for _ in [0]]
+    chain = [(t, b) for s in fn.body if isinstance(s, ast.If) for t, b in if_chain(s) if t is not None and N(t) == 'is_period(%s)' % fn.params[2]]
+    ctx.need(len(chain) >= 1, 'period branch of drange not found')
+    body = chain[0][1]
+    rets = [n for s in body for n in ast.walk(s) if isinstance(n, ast.Return)]
+    ctx.at_least(4, len(rets), 'exits of the period branch of drange')
+    for r_ in rets:
+        ctx.count(1, fn.where(r_))
+        v = r_.value
+        t = N(v) if v is not None else 'None'
+        ok = isinstance(v, ast.Name) or t == '[t0]' or (isinstance(v, ast.Call) and call_name(v) == 'list' and len(v.args) == 1 and isinstance(v.args[0], ast.Call) and call_name(v.args[0]) == 'rrule')
+        if not ok:
+            ctx.fail(fn, r_, 'the period branch of drange exits with `%s`: dates of a tenor are produced only by rrule (single forward unit) or by iterating dt_bump from the running date; a step measured once is wrong as soon as a month/quarter/year/business-day part is present' % U(v)[:100],
+                     witness="drange(dt(2020,1,31), dt(2020,6,1), '1m1d')")
+    for c in calls_in(ast.Module(body, []), 'drange'):
+        ctx.fail(fn, c, 'the period branch re-enters drange with a derived bump (`%s`)' % U(c)[:80])
